@@ -42,6 +42,7 @@ EXPLANATION = (
     "the threshold `line > 1022 bytes`. Acceptance of every grammatical URL is not decided. "
     "(V5) The request line is located independently of read boundaries (the C07.S3 rule set on the server's data_received). "
     "(V6) the PyOpenSSL pump hands every decrypted record to the protocol and keeps reading until the engine is empty (C07.S4)."
+    " (V4, measured value) each length comparison measures the function's own input (parameter / read buffer), not a form derived from it. (V7) = C01.W10. (V8) = C19.N6: the text given to from_line is the received line, only cut and decoded. (V1) also understands a decode helper that signals failure by returning None. (V2) samples include TAB/CR/LF, leading blanks / control characters, empty user-info and empty fragment; the Titan size must pass an ASCII-digit test before int()."
 )
 
 
@@ -249,7 +250,8 @@ def rule_v1(chk: Check) -> None:
 def rule_v2(chk: Check) -> None:
     chk.rule("V2", "parse_url raises ValueError for each violating sample on every feasible path and returns for a conforming one; reads the port; Titan parser guards present with rejecting polarity")
     fi = chk.proj.func("utils.url:parse_url")
-    g = build_cfg(chk.proj, fi)
+    # guards extracted into helpers of the same module are part of the parser
+    g = Builder(chk.proj, lambda caller, call, callee, depth: callee.module is fi.module and callee is not fi, 3).build(fi)
     param = fi.params[0]
     # name bound to the urlparse result
     res_name = None
@@ -300,7 +302,7 @@ def rule_v2(chk: Check) -> None:
             if last.kind == "exit":
                 ends.append(("return", path))
             elif last.kind == "raise_exit":
-                rn = path[-2][0] if len(path) > 1 else last
+                rn = next((x for x, _l in reversed(path[:-1]) if isinstance(x.ast, ast.Raise)), path[-2][0] if len(path) > 1 else last)
                 ends.append(("raise:" + (norm(rn.ast.exc.func) if isinstance(rn.ast, ast.Raise) and isinstance(rn.ast.exc, ast.Call) else "?"), path))
         return ends
 
@@ -327,8 +329,6 @@ def rule_v2(chk: Check) -> None:
     # Titan parser guards
     tf = chk.proj.func("protocol.request:TitanRequest.from_line")
     # helpers of the same module (e.g. an extracted size parser) are part of the parser
-    from ..cfg import Builder
-
     g2 = Builder(chk.proj, lambda caller, call, callee, depth: callee.module is tf.module and callee.node.name != "from_line", 3).build(tf)
     line = [p for p in tf.params if p != "cls"][0]
 
